@@ -37,6 +37,9 @@ type Op struct {
 
 type Case struct {
 	G [][]Op `json:"g"` // per goroutine
+	// Reopen: before the goroutines start the logger is closed and switched to the SAME writer again
+	// (Switch(w), Close(), Switch(w)): w is the current writer from then on
+	Reopen bool `json:"reopen,omitempty"`
 }
 
 type recWriter struct {
@@ -141,6 +144,10 @@ type stats struct {
 func runCase(c Case) (st stats, err error) {
 	w := &recWriter{}
 	logger.Switch(w)
+	if c.Reopen {
+		logger.Close()
+		logger.Switch(w)
+	}
 	defer logger.Switch(&recWriter{})
 	pid := os.Getpid()
 
@@ -376,6 +383,7 @@ func genCase(t *rapid.T) Case {
 		}
 		c.G = append(c.G, ops)
 	}
+	c.Reopen = rapid.IntRange(0, 3).Draw(t, "reopen") == 0
 	return c
 }
 
@@ -384,7 +392,7 @@ var rec = ev.New(prop, "concurrent-logging",
 		"T,Tf,W,Wf,E,Ef,I,If and the Logger interface with printable messages (Printf-style formats optionally ending in a newline; arguments optionally passed as a slice with spare capacity, which must come back untouched) and context kinds {nil, object with Cid(), library context, plain context.Context}; a recording io.WriteCloser installed with Switch keeps each Write call; "+
 		"oracle: ids pairwise distinct in the whole process, alias id == source id, one Write call per non-Info call = exactly one complete line with the label, pid, cid of the context passed and the intact message, "+
 		"race detector silent; non-trivial = >=2 goroutines that create contexts").
-	Require("parallel", "obj-ctx", "alias", "alias-onto-identified-parent", "format-ends-with-newline", "args-with-spare-capacity")
+	Require("parallel", "obj-ctx", "alias", "alias-onto-identified-parent", "format-ends-with-newline", "args-with-spare-capacity", "closed-and-switched-to-the-same-writer")
 
 func TestConcurrentLogging(t *testing.T) {
 	ev.Rapid(t, "concurrent-logging", 600, 80000, func(t *rapid.T) {
@@ -399,6 +407,9 @@ func TestConcurrentLogging(t *testing.T) {
 		var cl []string
 		if st.goroutines >= 2 {
 			cl = append(cl, "parallel")
+		}
+		if c.Reopen {
+			cl = append(cl, "closed-and-switched-to-the-same-writer")
 		}
 		for _, g := range c.G {
 			for _, o := range g {
